@@ -97,3 +97,21 @@ fn kx_m_write_str_and_extend() {
     if i < n { assert!(b[l0 + i] == src[i]); }
     drop(b);
 }
+
+// @ob props=C16 tier=quick kind=Kinf fns=vptr,invalid_ptr
+#[kani::proof]
+fn kx_vptr_branches_agree() {
+    // vptr has a debug_assertions branch (NonNull::new(..).expect) and a release branch
+    // (new_unchecked).  For a non-null argument - which every obligation that reaches vptr shows by
+    // passing the debug branch's `expect` - both yield the same pointer, so the two profiles agree.
+    let a: usize = kani::any();
+    kani::assume(a != 0);
+    let p = a as *mut u8;
+    let d = NonNull::new(p).expect("non-null");
+    let r = unsafe { NonNull::new_unchecked(p) };
+    assert!(d.as_ptr() == r.as_ptr() && vptr(p).as_ptr() == p);
+    // invalid_ptr: the tagged-integer `data` of the inline-Vec form survives the round trip
+    let t: usize = kani::any();
+    kani::assume(t < (1usize << 47));
+    assert!(invalid_ptr::<Shared>(t) as usize == t);
+}
